@@ -1257,10 +1257,16 @@ class EdgeQLSourceGenerator(codegen.SourceGenerator):
             )
 
     def visit_AlterDatabase(self, node: qlast.AlterDatabase) -> None:
-        self._visit_AlterObject(node, node.flavor)
+        def after_name() -> None:
+            if node.force:
+                self._write_keywords(' FORCE')
+        self._visit_AlterObject(node, node.flavor, after_name=after_name)
 
     def visit_DropDatabase(self, node: qlast.DropDatabase) -> None:
-        self._visit_DropObject(node, node.flavor)
+        def after_name() -> None:
+            if node.force:
+                self._write_keywords(' FORCE')
+        self._visit_DropObject(node, node.flavor, after_name=after_name)
 
     def visit_CreateRole(self, node: qlast.CreateRole) -> None:
         after_name = lambda: self._ddl_visit_bases(node)
